@@ -1,4 +1,5 @@
 import GqlProofs.Schema.NoPanic
+import GqlProofs.Schema.RelExact
 import GqlProofs.Schema.Examples
 /-
   C07 — a loaded schema is closed and consistent.  Property theorems about `Gql.Load.load`
@@ -238,3 +239,106 @@ theorem C07_closed_fieldTypes_counterexample :
     (match buildState Examples.inputQueryDoc with | .ok st => st | .error _ => default) noRoots [], ?_, ?_⟩
   · rfl
   · decide
+
+/- ------------------------------------------------------------------ relations are exact -/
+
+/-- `PossibleTypes` of an interface is exactly the set of object / interface types declaring it, and of
+    a union exactly its member list.  (`InputObjectsPlain`: input objects declare no interfaces — a
+    guarantee of the grammar.) -/
+theorem C07_relations_possible_abstract {sd : SchemaDoc} {s : Schema} (h : load sd = .ok s)
+    (hplain : InputObjectsPlain s) : Spec.possibleAbstractExact s = true := by
+  obtain ⟨st, r1, d1, F⟩ := loaded_facts h
+  have hpl := inputPlain_state F.typesInv.1 (F.eq ▸ hplain)
+  rw [F.eq]
+  simp only [Spec.possibleAbstractExact, List.all_eq_true]
+  intro p' hp'
+  rw [mkSchema_types_map F.typesInv.1] at hp'
+  obtain ⟨p, hp, rfl⟩ := List.mem_map.mp hp'
+  rw [finalDef_kind, finalDef_fst]
+  have hl := lookup_final (sd := sd) (r1 := r1) (d1 := d1) (lookup_of_mem_nodup F.typesInv.1 hp)
+  by_cases hk : p.2.kind = .interface
+  · simp only [hk, BEq.rfl, Bool.true_or, Bool.not_true, Bool.false_or]
+    rw [sameSet_iff]
+    intro x
+    simp only [Spec.impliedPossible, hl, finalDef_kind, hk]
+    have := mem_final_filter (sd := sd) (st := st) (r1 := r1) (d1 := d1) F.typesInv.1
+      (fun k i _ => (k == .object || k == .interface) && i.contains p.1) x
+    exact (possibleInterface_exact F hpl hp hk x).trans this.symm
+  · by_cases hu : p.2.kind = .union
+    · simp only [hu, BEq.rfl, Bool.or_true, Bool.not_true, Bool.false_or]
+      rw [sameSet_iff]
+      intro x
+      simp only [Spec.impliedPossible, hl, finalDef_kind, hu, finalDef_types]
+      exact possibleUnion_exact F hp hu x
+    · simp [hk, hu]
+
+/-- an object type is its own, only, possible type -/
+theorem C07_relations_possible_object {sd : SchemaDoc} {s : Schema} (h : load sd = .ok s) :
+    Spec.possibleObjectSelf s = true := by
+  obtain ⟨st, r1, d1, F⟩ := loaded_facts h
+  rw [F.eq]
+  simp only [Spec.possibleObjectSelf, List.all_eq_true]
+  intro p' hp'
+  rw [mkSchema_types_map F.typesInv.1] at hp'
+  obtain ⟨p, hp, rfl⟩ := List.mem_map.mp hp'
+  rw [finalDef_kind, finalDef_fst]
+  by_cases hk : p.2.kind = .object
+  · simp only [hk, bne_self_eq_false, Bool.false_or]
+    rw [sameSet_iff]
+    intro x
+    rw [possibleObject_exact F hp hk x]; simp
+  · simp [hk]
+
+/-- `Implements` of a type is exactly: the interfaces it declares and the unions listing it -/
+theorem C07_relations_implements {sd : SchemaDoc} {s : Schema} (h : load sd = .ok s)
+    (hplain : InputObjectsPlain s) : Spec.implementsExact s = true := by
+  have hclosed := C07_closed_implements h
+  obtain ⟨st, r1, d1, F⟩ := loaded_facts h
+  have hpl := inputPlain_state F.typesInv.1 (F.eq ▸ hplain)
+  rw [F.eq] at hclosed ⊢
+  simp only [Spec.implementsExact, Bool.and_eq_true, List.all_eq_true]
+  refine ⟨?_, ?_⟩
+  · intro p' hp'
+    rw [mkSchema_types_map F.typesInv.1] at hp'
+    obtain ⟨p, hp, rfl⟩ := List.mem_map.mp hp'
+    rw [finalDef_fst, sameSet_iff]
+    intro x
+    have hl := lookup_final (sd := sd) (r1 := r1) (d1 := d1) (lookup_of_mem_nodup F.typesInv.1 hp)
+    simp only [Spec.impliedImplements, hl, finalDef_kind, finalDef_interfaces, List.mem_append]
+    have := mem_final_filter (sd := sd) (st := st) (r1 := r1) (d1 := d1) F.typesInv.1
+      (fun k _ t => k == .union && t.contains p.1) x
+    rw [implements_exact F hpl hp x]
+    apply or_congr
+    · by_cases hk : p.2.kind = .object ∨ p.2.kind = .interface
+      · have : (p.2.kind == DefKind.object || p.2.kind == DefKind.interface) = true := by
+          rcases hk with hk | hk <;> simp [hk]
+        simp [this, hk]
+      · have : (p.2.kind == DefKind.object || p.2.kind == DefKind.interface) = false := by
+          simp only [not_or] at hk
+          simp [hk.1, hk.2]
+        simp [this, hk]
+    · exact this.symm
+  · intro p hp
+    have := (hclosed p hp).1
+    simp only [Spec.typeIs] at this
+    cases hl : (mkSchema sd st r1 d1).types.lookup p.1 with
+    | none => rw [hl] at this; simp at this
+    | some d => simp
+
+/-- **C07_relations_exact (partial)**: three of the four clauses of `RelationsExact` -/
+theorem C07_relations_exact_partial {sd : SchemaDoc} {s : Schema} (h : load sd = .ok s) (hplain : InputObjectsPlain s) :
+    Spec.possibleAbstractExact s = true ∧ Spec.possibleObjectSelf s = true ∧ Spec.implementsExact s = true :=
+  ⟨C07_relations_possible_abstract h hplain, C07_relations_possible_object h, C07_relations_implements h hplain⟩
+
+/-
+  Full statement (FALSE for the code as it is):
+    theorem C07_relations_exact : load sd = .ok s → InputObjectsPlain s → Spec.RelationsExact s
+  The fourth clause, `possibleNoOtherKeys` (only object, interface and union types have possible types),
+  fails: `schema.go:68` `case InputObject, Object:` also registers every input object as its own possible type.
+-/
+theorem C07_relations_exact_counterexample :
+    ∃ sd s, load sd = .ok s ∧ InputObjectsPlain s ∧ ¬ Spec.RelationsExact s := by
+  refine ⟨Examples.inputQueryDoc, mkSchema Examples.inputQueryDoc
+    (match buildState Examples.inputQueryDoc with | .ok st => st | .error _ => default) noRoots [], rfl, ?_, ?_⟩
+  · unfold InputObjectsPlain; decide
+  · intro h; exact absurd h.possibleNoOtherKeys (by decide)
